@@ -10,6 +10,10 @@
    * round 7 (`*_concrete`): the same property for `handleC` (`Model/DirectSpeakersConcrete.lean`), in which nothing
      is captured: position glue and both fallback panners are computed (C01/C05/C13/C19 models by import), over ℝ.
 
+   * round 8 (`handleC_total_layouts`, `geo_ds_total_and_bounded_layouts`, `passthrough_matrix_layouts`): which calls
+     the concrete model rejects on the ten layouts — only the documented ones (`Documented`), by C05 totality and the
+     totality of the C19 conversion; the whole property in one statement without any panner hypothesis.
+
    Float versus rational: the theorems are about the exact rational values of the float64 table entries and
    of the captured panner gains; finiteness / rounding of the final products is searched on the real code. -/
 import Earverif.Proofs.C10
@@ -17,6 +21,7 @@ import Earverif.Proofs.C10Geom
 import Earverif.Proofs.C10Angle
 import Earverif.Proofs.C10Sqrt
 import Earverif.Proofs.C10Concrete
+import Earverif.Proofs.C10Total
 import Earverif.Gen.C10_Tables
 
 namespace Earverif.DS
@@ -604,7 +609,7 @@ theorem fallbackC_contract (E : CEnv) (hE : envOkB E = true) (s : Shifted ℝ) (
     · cases h
     · rename_i g' hg
       injection h with h; subst h
-      exact pspHandle_nonneg_le_one E.psp hwf s.cart g' hg
+      exact pspHandle_nonneg_le_one E.psp hwf s.pan g' hg
   · simp only at h
     split at h
     · cases h
@@ -781,8 +786,8 @@ theorem fallbackC_cart_total (E : CEnv) (hE : envOkB E = true) (hne : E.alloPsp 
   have hdist := C13.distinct_cast _ hd
   obtain ⟨st, hst, hts, hm⟩ := C13.speakerTree_spec _ hdist
   have hne' : (E.alloPsp.map ratP3).map C13.castP3 ≠ [] := by simpa using hne
-  obtain ⟨r, hr⟩ := GainCalc.alloHandle_total ((E.alloPsp.map ratP3).map C13.castP3).length st s.cart.1 s.cart.2.1
-    s.cart.2.2 (treeNonempty_of_spec _ hne' st hts hm)
+  obtain ⟨r, hr⟩ := GainCalc.alloHandle_total ((E.alloPsp.map ratP3).map C13.castP3).length st s.pan.1 s.pan.2.1
+    s.pan.2.2 (treeNonempty_of_spec _ hne' st hts hm)
   obtain ⟨_, _, hlen⟩ := GainCalc.allo_unit_power_distinct _ hdist st hst _ _ _ r hr
   refine ⟨r, ?_, by rw [← hcount]; simpa using hlen⟩
   unfold fallbackC
@@ -826,9 +831,11 @@ theorem earlyExit_ok (L : Layout) (b : Block) (hpacks : b.packs ≠ some [])
 /-- **Cartesian blocks without screenEdgeLock are never rejected by the fallback**: unless the block has a
     positionOffset, an empty audioPackFormats list or no speakerLabel inside an ITU pack, `handle` returns gains —
     `AllocentricPanner.handle` always answers (C01 `alloHandle_total`, C13 `speakerTree_spec`).
-    PARTIAL (`ds_errors_exact` for the concrete model): missing are the polar path (needs "the C05 panner answers
-    for every direction", i.e. C05 totality, not proved here) and Cartesian blocks WITH a screenEdgeLock (needs
-    totality of `point_cart_to_polar` / `point_polar_to_cart`, i.e. that `_find_sector` never asserts). -/
+    PARTIAL as a statement about one environment satisfying `envOkB` only (any layout table, arbitrary conversion
+    parameters): it does not cover the polar path nor Cartesian blocks WITH a screenEdgeLock.  Both are proved on the ten
+    layouts below (round 8: `handleC_total_layouts`, `handleC_total_polar_layouts`, `handleC_total_cart_layouts`), where
+    C05 totality and the totality of the C19 conversion on its table are available; this lemma is kept because it
+    holds for every `P` and every environment. -/
 theorem handleC_total_cart_partial (E : CEnv) (hE : envOkB E = true) (hne : E.alloPsp ≠ [])
     (hcount : E.alloPsp.length = (E.L.isLfe.filter (!·)).length) (P : Conv.Params ℝ) (b : Block)
     (hoff : b.hasPositionOffset = false) (hpacks : b.packs ≠ some [])
@@ -866,6 +873,7 @@ theorem handleC_cart_point_source (E : CEnv) (hE : envOkB E = true) (hne : E.all
   obtain ⟨g, hg, hlen⟩ := fallbackC_cart_total E hE hne hcount
     (Shifted.mk (α := ℝ) (cartWithinC (α := ℝ) (E.G.allo.map cast3) ⟨GainCalc.k x.value, x.min, x.max⟩
         ⟨GainCalc.k y.value, y.min, y.max⟩ ⟨GainCalc.k z.value, z.min, z.max⟩ (GainCalc.k tol))
+      (GainCalc.k x.value, GainCalc.k y.value, GainCalc.k z.value)
       (GainCalc.k x.value, GainCalc.k y.value, GainCalc.k z.value) (E.G.allo.map cast3) false) rfl
   rw [hg]
   obtain ⟨pv, hpv⟩ := scatterC_total E.L.isLfe g hlen
@@ -1081,6 +1089,250 @@ example : ∀ E ∈ envs, E.L.name = "0+2+0" → ∀ P : Conv.Params ℝ, ∃ pv
   refine ⟨pv, hpv, ?_⟩
   have := geo_ds_power_le_concrete_point_source E hok P _ _ _ pv hpv
   simpa [gainR, blk, objectGainOf] using this
+
+
+/-! ## round 8: which calls are rejected — totality on the ten layouts, one statement for the whole property
+
+`handleC` fails only in the documented ways (`Documented`): positionOffset, an empty audioPackFormats list, no
+speakerLabel inside an ITU pack.  Neither fallback panner ever refuses (`pspNone`), the Cartesian screen edge lock never
+asserts (`edgeLock`), the allocentric panner is always constructible (`speakerTree`), no gain vector has the wrong
+length (`pspShape`).  Ingredients: C05 totality on the ten regenerated region tables
+(`PointSource.pspHandle_total_layouts`, Props/C05.lean) — applicable because the polar panning position is
+`cart az' el' 1`, of norm 1 (C01 `norm3_cart`), whatever the block's distance (the code pans at unit distance since
+/repo 1404dee; before, distance 0 gave the zero vector and NaN gains) —, totality and azimuth range of the C19
+conversion on its regenerated table (`Conv.pointCartToPolar_total`, `polar_range_partial`, `pointPolarToCart_total`; the
+conversion parameters are `Conv.RP fuel`, any fuel ≥ 1 — the driver runs fuel 4096), `compensate_az_range`, C01
+`alloHandle_total` / C13 `speakerTree_spec`. -/
+
+/-- every environment's loudspeaker table is one of the C10 layouts and its point-source table one of the C05 tables -/
+theorem envs_mem (E : CEnv) (hE : E ∈ envs) : E.L ∈ layouts ∧ E.psp ∈ Earverif.Gen.C05.layouts := by
+  simp only [envs, List.mem_filterMap] at hE
+  obtain ⟨L0, _, hL⟩ := hE
+  simp only [mkEnv, Option.bind_eq_bind, Option.bind_eq_some_iff, Option.some.injEq] at hL
+  obtain ⟨L, hfL, G, _, a, _, T, hfT, rfl⟩ := hL
+  exact ⟨List.mem_of_find?_eq_some hfL, List.mem_of_find?_eq_some hfT⟩
+
+/-- Table obligations of the totality theorems on the tables regenerated on this run: the representative screen
+    edges are azimuths of [-180, 180] (`edgesOkB`) and every layout has an allocentric fallback position. -/
+theorem total_tables_ok : envs.all (fun E => edgesOkB E && !E.alloPsp.isEmpty) = true := by decide +kernel
+
+/-- what `envs` membership gives the totality proofs -/
+theorem envs_facts (E : CEnv) (hE : E ∈ envs) :
+    envOkB E = true ∧ edgesOkB E = true ∧ E.alloPsp ≠ [] ∧
+    E.alloPsp.length = (E.L.isLfe.filter (!·)).length ∧
+    (if E.psp.stereo.isSome then 2 else E.psp.nReal) = (E.L.isLfe.filter (!·)).length ∧
+    E.psp ∈ Earverif.Gen.C05.layouts := by
+  have hok := List.all_eq_true.mp concrete_tables_ok.2.2.1 E hE
+  have hsh := List.all_eq_true.mp concrete_tables_ok.2.2.2 E hE
+  have ht := List.all_eq_true.mp total_tables_ok E hE
+  simp only [Bool.and_eq_true, beq_iff_eq] at hsh
+  simp only [Bool.and_eq_true, Bool.not_eq_eq_eq_not, Bool.not_true, List.isEmpty_eq_false_iff] at ht
+  exact ⟨hok, ht.1, ht.2, hsh.1, hsh.2, (envs_mem E hE).2⟩
+
+/-- **The documented rejections** of `DirectSpeakersPanner.handle` (nothing else is an outcome on the ten layouts):
+    * `ValueError`: the object carries a positionOffset;
+    * `IndexError`: `audioPackFormats` is the empty list;
+    * `IndexError`: the last pack is an ITU common-definition pack and the block has no speakerLabel. -/
+def Documented (b : Block) : CError → Prop
+  | .ds .positionOffset => b.hasPositionOffset = true
+  | .ds .emptyPackList => b.packs = some []
+  | .ds .noLabelInItuPack => b.labels = [] ∧ ∃ il, ituLayoutOf ituPacks b = .ok (some il)
+  | _ => False
+
+theorem handleNoGainC_error_layouts (E : CEnv) (hE : E ∈ envs) (m : Nat) (b : Block) (pos : PositionC) (tol : Rat)
+    (err : CError) (h : handleNoGainC rules ituPacks E (Conv.RP (m + 1)) b pos tol = .error err) :
+    Documented b err := by
+  obtain ⟨hok, hedges, hne, hcA, hcP, hmem⟩ := envs_facts E hE
+  unfold handleNoGainC at h
+  split at h
+  · rename_i hoff
+    injection h with h; subst h
+    exact hoff
+  · split at h
+    · rename_i e he
+      injection h with h; subst h
+      rcases earlyExit_error he with ⟨rfl, hp⟩ | ⟨rfl, hl, il, hil⟩
+      · exact hp
+      · exact ⟨hl, il, hil⟩
+    · cases h
+    · split at h
+      · -- `apply_screen_edge_lock` never fails
+        rename_i e hs
+        cases pos with
+        | polar az el dist sel => simp [shift] at hs
+        | cart x y z sel =>
+          obtain ⟨q, hq⟩ := handleVectorCart_total E hedges m
+            ((GainCalc.k x.value : ℝ), (GainCalc.k y.value : ℝ), (GainCalc.k z.value : ℝ)) sel
+          simp only [shift, hq] at hs
+          cases hs
+      · rename_i s hs
+        simp only at h
+        obtain ⟨hlfe, hfb⟩ := lateExitC_error h
+        -- the fallback panner answers with one gain per non-LFE slot
+        have key : ∃ g, fallbackC E s = .ok g ∧ g.length = (E.L.isLfe.filter (!·)).length := by
+          cases pos with
+          | polar az el dist sel =>
+            simp only [shift] at hs
+            injection hs with hs
+            refine fallbackC_polar_total E hmem hcP s (by rw [← hs]) ?_
+            rw [← hs]
+            simp only [GainCalc.k_real]
+            intro h0
+            have := (cart_eq_zero_iff _ _ _).mp h0
+            norm_num at this
+          | cart x y z sel =>
+            simp only [shift] at hs
+            split at hs
+            · cases hs
+            · injection hs with hs
+              exact fallbackC_cart_total E hok hne hcA s (by rw [← hs])
+        obtain ⟨g, hg, hlen⟩ := key
+        rcases hfb with hfb | ⟨g', hg', hsc, _⟩
+        · rw [hg] at hfb; cases hfb
+        · rw [hg] at hg'
+          injection hg' with hg'; subst hg'
+          obtain ⟨pv, hpv⟩ := scatterC_total E.L.isLfe g hlen
+          rw [hpv] at hsc; cases hsc
+
+/-- **`handleC` fails only in the documented ways**, on the ten layouts, every block kind (polar and Cartesian
+    positions, any distance, with bounds, with or without screenEdgeLock). -/
+theorem handleC_total_layouts (E : CEnv) (hE : E ∈ envs) (m : Nat) (b : Block) (pos : PositionC) (tol : Rat) :
+    (∃ e pv, handleC rules ituPacks E (Conv.RP (m + 1)) b pos tol = .ok (e, pv)) ∨
+    (∃ err, handleC rules ituPacks E (Conv.RP (m + 1)) b pos tol = .error err ∧ Documented b err) := by
+  unfold handleC
+  cases h : handleNoGainC rules ituPacks E (Conv.RP (m + 1)) b pos tol with
+  | ok r => exact Or.inl ⟨r.1, scaleC b r.2, rfl⟩
+  | error err => exact Or.inr ⟨err, rfl, handleNoGainC_error_layouts E hE m b pos tol err h⟩
+
+/-- the three documented rejections, as hypotheses -/
+structure Accepted (b : Block) : Prop where
+  noOffset : b.hasPositionOffset = false
+  packs : b.packs ≠ some []
+  label : ∀ il, ituLayoutOf ituPacks b = .ok (some il) → b.labels ≠ []
+
+theorem ok_of_not_documented {E : CEnv} {P : Conv.Params ℝ} {b : Block} {pos : PositionC} {tol : Rat}
+    (h : (∃ e pv, handleC rules ituPacks E P b pos tol = .ok (e, pv)) ∨
+      (∃ err, handleC rules ituPacks E P b pos tol = .error err ∧ Documented b err))
+    (hb : Accepted b) : ∃ e pv, handleC rules ituPacks E P b pos tol = .ok (e, pv) := by
+  rcases h with h | ⟨err, _, hd⟩
+  · exact h
+  · exfalso
+    match err, hd with
+    | .ds .positionOffset, hd =>
+      have hd' : b.hasPositionOffset = true := hd
+      rw [hb.noOffset] at hd'; cases hd'
+    | .ds .emptyPackList, hd => exact hb.packs hd
+    | .ds .noLabelInItuPack, ⟨hl, il, hil⟩ => exact hb.label il hil hl
+
+/-- **A polar DirectSpeakers block is never rejected by the point-source panner** on the ten layouts: unless the block
+    has a positionOffset, an empty audioPackFormats list or no speakerLabel inside an ITU pack, `handle` returns gains —
+    for EVERY azimuth, elevation and distance (0 and negative included: the panner is given the direction at unit
+    distance), with bounds and screenEdgeLock (C05 totality; the polar path does not use the conversion, so `P` is
+    arbitrary). -/
+theorem handleC_total_polar_layouts (E : CEnv) (hE : E ∈ envs) (P : Conv.Params ℝ) (b : Block) (hb : Accepted b)
+    (az el dist : Bound) (sel : ScreenEdgeLock) (tol : Rat) :
+    ∃ e pv, handleC rules ituPacks E P b (.polar az el dist sel) tol = .ok (e, pv) := by
+  have hP : handleC rules ituPacks E P b (.polar az el dist sel) tol =
+      handleC rules ituPacks E (Conv.RP 1) b (.polar az el dist sel) tol := rfl
+  rw [hP]
+  exact ok_of_not_documented (handleC_total_layouts E hE 0 b _ tol) hb
+
+/-- **A Cartesian DirectSpeakers block is never rejected**, with or without screenEdgeLock (totality of the C19
+    conversion on its table; `AllocentricPanner.handle` always answers). -/
+theorem handleC_total_cart_layouts (E : CEnv) (hE : E ∈ envs) (m : Nat) (b : Block) (hb : Accepted b)
+    (x y z : Bound) (sel : ScreenEdgeLock) (tol : Rat) :
+    ∃ e pv, handleC rules ituPacks E (Conv.RP (m + 1)) b (.cart x y z sel) tol = .ok (e, pv) :=
+  ok_of_not_documented (handleC_total_layouts E hE m b _ tol) hb
+
+/-- **The property in one statement, no panner hypothesis**: for every block (labels, frequency, packs, gains, polar or
+    Cartesian position with bounds and screenEdgeLock) on each of the ten layouts, `handle` either returns gains — one
+    per loudspeaker; non-negative when block gain and object gain are; total power ≤ (gain × object gain)² (1 + 2⁻⁴⁰);
+    zero at every output of the other LFE class (an LFE channel reaches only LFE outputs, any other channel never an
+    LFE output; for blocks in an ITU pack under `PackConsistent`, which holds for every common-definition channel:
+    `common_channel_packConsistent`) — or fails in one of the three documented ways.  Over ℝ: finiteness of the binary64
+    results is searched on the real code (the one way the real code produced non-finite gains, 0 / 0 for a polar
+    position at distance 0, is gone from code and model: the panning position has norm 1). -/
+theorem geo_ds_total_and_bounded_layouts (E : CEnv) (hE : E ∈ envs) (m : Nat) (b : Block) (pos : PositionC)
+    (tol : Rat) :
+    match handleC rules ituPacks E (Conv.RP (m + 1)) b pos tol with
+    | .ok (_, pv) =>
+      pv.length = E.L.names.length ∧
+      (0 ≤ b.gain → 0 ≤ b.objectGain → ∀ x ∈ pv, 0 ≤ x) ∧
+      (pv.map fun x => x * x).sum ≤ (gainR b * gainR b) * slackR ∧
+      (PackConsistent ituPacks b → ∀ i : Nat, E.L.isLfe[i]? = some (!isLfeChannel b) → pv[i]? = some 0)
+    | .error err => Documented b err := by
+  have hok := (envs_facts E hE).1
+  split
+  · rename_i e pv h
+    refine ⟨geo_ds_length_concrete E hok _ b pos tol e pv h,
+      fun hg hog => geo_ds_nonneg_concrete E hok _ b pos tol hg hog e pv h,
+      geo_ds_power_le_concrete E hok _ b pos tol e pv h, fun hc => ?_⟩
+    obtain ⟨pv0, h0, rfl⟩ := handleC_ok h
+    exact zeroOff_scaleC b ((handleNoGainC_facts E hok _ b pos tol h0).lfe hc)
+  · rename_i err h
+    rcases handleC_total_layouts E hE m b pos tol with ⟨e, pv, h'⟩ | ⟨err', h', hd⟩
+    · rw [h] at h'; cases h'
+    · rw [h] at h'; injection h' with h'; subst h'; exact hd
+
+/-! ### non-vacuity; the former distance-0 failure -/
+
+example : Accepted (blk [] none none 1) :=
+  ⟨rfl, by simp [blk], by intro il h; simp [ituLayoutOf, blk] at h⟩
+
+/-- a polar block at distance 0 (the input on which the code returned NaN gains before /repo 1404dee: the panning
+    position was the zero vector) gets gains on all ten layouts; likewise one behind the listener at distance 1 -/
+example : ∀ E ∈ envs, ∀ P : Conv.Params ℝ, ∃ e pv,
+    handleC rules ituPacks E P (blk [] none none 1) (.polar (bnd 0) (bnd 0) (bnd 0) ⟨none, none⟩) tol5 = .ok (e, pv) :=
+  fun E hE P => handleC_total_polar_layouts E hE P _ ⟨rfl, by simp [blk], by intro il h; simp [ituLayoutOf, blk] at h⟩
+    _ _ _ _ _
+example : ∀ E ∈ envs, ∀ P : Conv.Params ℝ, ∃ e pv,
+    handleC rules ituPacks E P (blk [] none none 1) (.polar (bnd 180) (bnd 0) (bnd 1) ⟨none, none⟩) tol5 = .ok (e, pv) :=
+  fun E hE P => handleC_total_polar_layouts E hE P _ ⟨rfl, by simp [blk], by intro il h; simp [ituLayoutOf, blk] at h⟩
+    _ _ _ _ _
+/-- a Cartesian block locked to the left screen edge, on all ten layouts, with the driver's conversion fuel -/
+example : ∀ E ∈ envs, ∃ e pv,
+    handleC rules ituPacks E (Conv.RP 4096) (blk [] none none 1)
+      (.cart (bnd (1 / 2)) (bnd 1) (bnd 0) ⟨some "left", none⟩) tol5 = .ok (e, pv) :=
+  fun E hE => handleC_total_cart_layouts E hE 4095 _ ⟨rfl, by simp [blk], by intro il h; simp [ituLayoutOf, blk] at h⟩
+    _ _ _ _ _
+
+/-! ### pass-through: the whole (common-definition pack × same layout) matrix -/
+
+/-- Table obligation: the panner's own `itu_packs` dict agrees with the common definitions — every common-definition
+    pack whose audioPackFormatName is a BS.2051 URN `urn:itu:bs:2051:<n>:pack:<name>_(<layout>)` (`bs2051NamedPacks`,
+    read off the names alone) is listed in `itu_packs` with that layout, is one of `commonPacks`, and every one of the ten
+    layouts has at least one pack. -/
+theorem named_packs_in_itu_table :
+    bs2051NamedPacks.all (fun q => ituPacks.lookup q.1 == some q.2 && commonPacks.any (·.id == q.1)) = true ∧
+    layouts.all (fun L => commonPacks.any fun p => ituPacks.lookup p.id == some L.name) = true := by
+  decide +kernel
+
+/-- **Pass-through on the whole matrix, nothing captured**: for EVERY pair of a common-definition pack `p` and one of the
+    ten layouts `E.L` such that `p` is the BS.2051 pack of that layout — by the panner's `itu_packs` table or by the
+    pack's BS.2051 URN name —, every channel of `p`, any block gain / object gain / mute, any position and any conversion
+    parameters: `handle` returns exactly the unit vector of the like-named loudspeaker × gain × object gain.  The cells
+    are discharged together by ONE `decide +kernel` over layouts × commonPacks (`passthrough_table`: `passTable` ranges
+    over all layouts and all common packs, not over exits). -/
+theorem passthrough_matrix_layouts (E : CEnv) (hE : E ∈ envs) (P : Conv.Params ℝ) (p : CommonPack)
+    (hp : p ∈ commonPacks)
+    (hitu : ituPacks.lookup p.id = some E.L.name ∨ (p.id, E.L.name) ∈ bs2051NamedPacks)
+    (c : CommonChannel) (hc : c ∈ p.channels) (gain og : Rat) (mute : Bool) (pos : PositionC) (tol : Rat) :
+    ∃ l e, c.labels.head? = some l ∧ nominalSpeakerLabel l ∈ E.L.names ∧
+      handleC rules ituPacks E P (c.block p.id gain og mute) pos tol =
+        .ok (e, scaleC (c.block p.id gain og mute)
+              (castV (unitVec E.L.names.length (E.L.names.idxOf (nominalSpeakerLabel l))))) := by
+  have hitu' : ituPacks.lookup p.id = some E.L.name := by
+    rcases hitu with h | h
+    · exact h
+    · have := List.all_eq_true.mp named_packs_in_itu_table.1 _ h
+      simp only [Bool.and_eq_true, beq_iff_eq] at this
+      exact this.1
+  exact geo_ds_passthrough_concrete E (envs_mem E hE).1 P p hp hitu' c hc gain og mute pos tol
+
+/-- non-vacuity: the 5.1 pack is named a BS.2051 pack of 0+5+0, and the matrix has a cell for every layout -/
+example : ("AP_00010003", "0+5+0") ∈ bs2051NamedPacks := by decide +kernel
+example : envs.all (fun E => commonPacks.any fun p => ituPacks.lookup p.id == some E.L.name) = true := by
+  decide +kernel
 
 
 end Earverif.DS
